@@ -14,7 +14,7 @@ import (
 //	method   object-literal method, o.m() or o["m"]()             frame name = "" / own name
 //	ctor     constructor, `new C()` or `new C`                    call site = the C after `new`
 //	foreach map sort filter some every reduce   array callback    native frame in between
-//	getter setter  accessor invoked by a property read / write    (finding C19-ACCESSOR-CALLSITE)
+//	getter setter  accessor invoked by a property read / write    (finding C19-PROPERTY-ACCESS-SITE)
 //	eval     direct eval: no frame, the enclosing frame continues in the eval code
 //	evalind  indirect eval: native frame `eval` + anonymous global-code frame
 //	bound    f.bind(null) called: one frame, the target's
@@ -122,11 +122,12 @@ var NativeCtors = []string{"Error", "EvalError", "RangeError", "ReferenceError",
 
 const (
 	KOperator  = "C19-OPERATOR-NO-POSITION"
-	KAccessor  = "C19-ACCESSOR-CALLSITE"
+	KAccessor  = "C19-PROPERTY-ACCESS-SITE"
 	KNotRef    = "C19-CALLEE-NOT-REFERENCE"
 	KEvalFile  = "C19-EVAL-FILE-STICKS"
 	KRenamed   = "C19-RENAMED-ERROR-TEXT"
 	KArrayMsg  = "C19-ARRAY-LENGTH-NO-MESSAGE"
+	KEmptyArg  = "C19-EMPTY-MESSAGE-UNDEFINED"
 	KColBytes  = "C19-COLUMN-BYTES"
 	KColBytesP = "C19-PARSER-COLUMN-BYTES"
 	KLineTerm  = "C19-RUNTIME-LINE-TERMINATORS"
@@ -196,15 +197,15 @@ func raiseOf(r Raise) raiseSpec {
 			return sp
 		case 4:
 			sp := simple("RangeError", "arr0 . length = - 1", 0)
-			sp.emptyID, sp.assign, sp.exact, sp.wild = KArrayMsg, true, false, KOperator
+			sp.emptyID, sp.assign, sp.exact, sp.wild = KArrayMsg, true, false, KAccessor
 			return sp
 		case 5:
 			sp := simple("RangeError", "arr0 . length = 1.5", 0)
-			sp.emptyID, sp.assign, sp.exact, sp.wild = KArrayMsg, true, false, KOperator
+			sp.emptyID, sp.assign, sp.exact, sp.wild = KArrayMsg, true, false, KAccessor
 			return sp
 		default:
 			sp := simple("RangeError", `arr0 [ "length" ] = 4294967296`, 0)
-			sp.emptyID, sp.assign, sp.exact, sp.wild = KArrayMsg, true, false, KOperator
+			sp.emptyID, sp.assign, sp.exact, sp.wild = KArrayMsg, true, false, KAccessor
 			return sp
 		}
 	case "number-format": // 15.7.4.2 (radix), 15.7.4.5/6/7 (digits): RangeError
@@ -264,6 +265,9 @@ func raiseOf(r Raise) raiseSpec {
 			m := msg
 			e.Message = &m
 			e.CtorName, e.CtorMsg = ctor, msg
+			if mi == 1 {
+				e.EmptyMsgID = KEmptyArg // an explicit empty message
+			}
 		}
 		return sp
 	case "throw-renamed": // the thrown value's name/message are changed after construction
@@ -317,7 +321,7 @@ func raiseOf(r Raise) raiseSpec {
 		sp.expect = func(e *Expect) { e.Thrown, e.Text = "object", src.text }
 		return sp
 	case "syntax": // 15.1.2.1: SyntaxError from eval; parser.ErrorList from the API. Position: the offending token.
-		sp := raiseSpec{class: "SyntaxError", exact: true, stmt: true, syntax: true, heads: []string{"eval"}}
+		sp := raiseSpec{class: "SyntaxError", exact: true, stmt: true, syntax: true}
 		type sv struct {
 			pre   string // tokens before the offending token
 			bad   string // the offending token
@@ -830,9 +834,19 @@ func (r *renderer) context(w *writer, k int) {
 		r.feat["wrap:"+wr] = true
 	}
 	if r.caught && k == r.catchAt {
-		st = append(append(words("try {"), st...), words("} catch ( cx ) { __obs = __probe ( cx ) ; }")...)
+		// the wrapper is laid out from a tape of its own, so that everything else (in particular the
+		// text of eval code) is laid out exactly as in the uncaught program
+		real := w.tape
+		w.tape = &tape{}
+		w.emit(words("try {"))
+		w.tape = real
+		w.emit(st)
+		w.tape = &tape{}
+		w.emit(words("} catch ( cx ) { __obs = __probe ( cx ) ; }"))
+		w.tape = real
+	} else {
+		w.emit(st)
 	}
-	w.emit(st)
 	if after != nil {
 		after()
 	}
